@@ -497,7 +497,8 @@ fn pretty_print_rustfmt(tokens: TokenStream) -> String {
         let written = stdin.write_all(value.as_bytes()).is_ok();
 
         let output = proc.wait_with_output().unwrap();
-        if written && output.status.success() {
+        // A formatter that prints nothing did not format anything.
+        if written && output.status.success() && !output.stdout.is_empty() {
             return String::from_utf8(output.stdout).unwrap();
         }
     }
